@@ -7,7 +7,9 @@ Driver for stream `mempool` (C08): one op per line, one observation per line.
   bal <primary> <secondary> <amount>         -> ok                (Feer stub balance)
   add <i>                                    -> ok|err:<class>|panic ; <state>
   remove <i>                                 -> ok ; <state>
-  stale <feePerByte> <dropped i,j,..|->      -> ok ; <state>
+  stale <feePerByte> <dropped i,j,..|->      -> ok rs=<resent ids in call order|-> ; <state>
+  height <h>                                 -> ok                (Feer stub BlockHeight)
+  threshold <h>                              -> ok                (SetResendThreshold)
   verify <i>                                 -> true|false|panic
 <state> = txs=<ids most prioritized first|-> n=<count> has=<bits> hc=<bits> ver=<bits>
   (bits: one per defined transaction in definition order: ContainsKey, HasConflicts, Verify;
@@ -22,14 +24,16 @@ structure St where
   table : List Tx                 -- defined transactions, in definition order
   bals : List (Payer × Nat)
   fpb : Nat
+  height : Nat
 
-def St.init : St := { pool := Mempool.new 0, table := [], bals := [], fpb := 0 }
+def St.init : St := { pool := Mempool.new 0, table := [], bals := [], fpb := 0, height := 0 }
 
 def St.feer (s : St) : Feer :=
   { balance := fun p q => match s.bals.find? (fun e => e.1 == (p, q)) with
       | some e => e.2
       | none => 0
-    feePerByte := s.fpb }
+    feePerByte := s.fpb
+    height := s.height }
 
 def St.tx? (s : St) (i : Nat) : Option Tx := s.table.find? (fun t => t.id == i)
 
@@ -96,8 +100,17 @@ def step (s : St) (ws : List String) : St × String :=
     match f.toNat?, parseList dr with
     | some f, some dr =>
       let s := { s with fpb := f }
-      withState { s with pool := removeStale s.pool (fun t => !dr.contains t.id) s.feer } "ok"
+      let mp := removeStale s.pool (fun t => !dr.contains t.id) s.feer
+      withState { s with pool := mp } s!"ok rs={csv mp.resent}"
     | _, _ => (s, "bad-op")
+  | ["height", h] =>
+    match h.toNat? with
+    | some h => ({ s with height := h }, "ok")
+    | none => (s, "bad-op")
+  | ["threshold", h] =>
+    match h.toNat? with
+    | some h => ({ s with pool := setResendThreshold s.pool h }, "ok")
+    | none => (s, "bad-op")
   | ["verify", i] =>
     match i.toNat? >>= s.tx? with
     | some t =>
